@@ -55,21 +55,21 @@ func init() {
 			w.obj = o
 		},
 		methods: map[string]method{
-			"Queue.Add":                 func(w *world, c *call) { _ = qo(w).q.Add(c.i) },
-			"Queue.Len":                 func(w *world, c *call) { _ = qo(w).q.Len() },
-			"Queue.BlockingAdd":         func(w *world, c *call) { _ = qo(w).q.BlockingAdd(c.ctx, c.i) },
-			"Queue.Remove":              func(w *world, c *call) { _, _ = qo(w).q.Remove() },
-			"Queue.Wait":                func(w *world, c *call) { _, _ = qo(w).q.Wait(c.ctx) },
-			"Queue.Close":               func(w *world, c *call) { _ = qo(w).q.Close() },
-			"Queue.Producer":            func(w *world, c *call) { _ = qo(w).q.Producer() },
-			"Queue.Producer()":          func(w *world, c *call) { _, _ = qo(w).prod(c.ctx) },
-			"Queue.Iterator":            func(w *world, c *call) { _ = qo(w).q.Iterator() },
-			"Queue.Iterator().ReadOne":  func(w *world, c *call) { _, _ = qo(w).iter.ReadOne(c.ctx) },
-			"Queue.Iterator().Close":    func(w *world, c *call) { _ = qo(w).iter.Close() },
-			"Queue.Distributor":         func(w *world, c *call) { _ = qo(w).q.Distributor() },
-			"Queue.Distributor().Send":  func(w *world, c *call) { _ = qo(w).dist.Send(c.ctx, c.i) },
-			"Queue.Distributor().Receive": func(w *world, c *call) { _, _ = qo(w).dist.Receive(c.ctx) },
-			"Queue.Distributor().Len":   func(w *world, c *call) { _ = qo(w).dist.Len() },
+			"Queue.Add":                              func(w *world, c *call) { _ = qo(w).q.Add(c.i) },
+			"Queue.Len":                              func(w *world, c *call) { _ = qo(w).q.Len() },
+			"Queue.BlockingAdd":                      func(w *world, c *call) { _ = qo(w).q.BlockingAdd(c.ctx, c.i) },
+			"Queue.Remove":                           func(w *world, c *call) { _, _ = qo(w).q.Remove() },
+			"Queue.Wait":                             func(w *world, c *call) { _, _ = qo(w).q.Wait(c.ctx) },
+			"Queue.Close":                            func(w *world, c *call) { _ = qo(w).q.Close() },
+			"Queue.Producer":                         func(w *world, c *call) { _ = qo(w).q.Producer() },
+			"Queue.Producer()":                       func(w *world, c *call) { _, _ = qo(w).prod(c.ctx) },
+			"Queue.Iterator":                         func(w *world, c *call) { _ = qo(w).q.Iterator() },
+			"Queue.Iterator().ReadOne":               func(w *world, c *call) { _, _ = qo(w).iter.ReadOne(c.ctx) },
+			"Queue.Iterator().Close":                 func(w *world, c *call) { _ = qo(w).iter.Close() },
+			"Queue.Distributor":                      func(w *world, c *call) { _ = qo(w).q.Distributor() },
+			"Queue.Distributor().Send":               func(w *world, c *call) { _ = qo(w).dist.Send(c.ctx, c.i) },
+			"Queue.Distributor().Receive":            func(w *world, c *call) { _, _ = qo(w).dist.Receive(c.ctx) },
+			"Queue.Distributor().Len":                func(w *world, c *call) { _ = qo(w).dist.Len() },
 			"Queue.Distributor().Iterator().ReadOne": func(w *world, c *call) { _, _ = qo(w).diter.ReadOne(c.ctx) },
 		},
 	})
@@ -90,29 +90,29 @@ func do(w *world) *dequeObj { return w.obj.(*dequeObj) }
 
 func init() {
 	ms := map[string]method{
-		"Deque.Len":            func(w *world, c *call) { _ = do(w).dq.Len() },
-		"Deque.Close":          func(w *world, c *call) { _ = do(w).dq.Close() },
-		"Deque.PushFront":      func(w *world, c *call) { _ = do(w).dq.PushFront(c.i) },
-		"Deque.PushBack":       func(w *world, c *call) { _ = do(w).dq.PushBack(c.i) },
-		"Deque.PopFront":       func(w *world, c *call) { _, _ = do(w).dq.PopFront() },
-		"Deque.PopBack":        func(w *world, c *call) { _, _ = do(w).dq.PopBack() },
-		"Deque.WaitFront":      func(w *world, c *call) { _, _ = do(w).dq.WaitFront(c.ctx) },
-		"Deque.WaitBack":       func(w *world, c *call) { _, _ = do(w).dq.WaitBack(c.ctx) },
-		"Deque.ForcePushFront": func(w *world, c *call) { _ = do(w).dq.ForcePushFront(c.i) },
-		"Deque.ForcePushBack":  func(w *world, c *call) { _ = do(w).dq.ForcePushBack(c.i) },
-		"Deque.WaitPushFront":  func(w *world, c *call) { _ = do(w).dq.WaitPushFront(c.ctx, c.i) },
-		"Deque.WaitPushBack":   func(w *world, c *call) { _ = do(w).dq.WaitPushBack(c.ctx, c.i) },
-		"Deque.Producer":                func(w *world, c *call) { _ = do(w).dq.Producer() },
-		"Deque.ProducerBlocking":        func(w *world, c *call) { _ = do(w).dq.ProducerBlocking() },
-		"Deque.ProducerReverse":         func(w *world, c *call) { _ = do(w).dq.ProducerReverse() },
-		"Deque.ProducerReverseBlocking": func(w *world, c *call) { _ = do(w).dq.ProducerReverseBlocking() },
-		"Deque.Iterator":                func(w *world, c *call) { _ = do(w).dq.Iterator() },
-		"Deque.IteratorReverse":         func(w *world, c *call) { _ = do(w).dq.IteratorReverse() },
-		"Deque.Iterator().ReadOne":        func(w *world, c *call) { _, _ = do(w).iter.ReadOne(c.ctx) },
-		"Deque.IteratorReverse().ReadOne": func(w *world, c *call) { _, _ = do(w).riter.ReadOne(c.ctx) },
-		"Deque.Distributor().Send":    func(w *world, c *call) { _ = do(w).dist.Send(c.ctx, c.i) },
-		"Deque.Distributor().Receive": func(w *world, c *call) { _, _ = do(w).dist.Receive(c.ctx) },
-		"Deque.Distributor().Len":     func(w *world, c *call) { _ = do(w).dist.Len() },
+		"Deque.Len":                              func(w *world, c *call) { _ = do(w).dq.Len() },
+		"Deque.Close":                            func(w *world, c *call) { _ = do(w).dq.Close() },
+		"Deque.PushFront":                        func(w *world, c *call) { _ = do(w).dq.PushFront(c.i) },
+		"Deque.PushBack":                         func(w *world, c *call) { _ = do(w).dq.PushBack(c.i) },
+		"Deque.PopFront":                         func(w *world, c *call) { _, _ = do(w).dq.PopFront() },
+		"Deque.PopBack":                          func(w *world, c *call) { _, _ = do(w).dq.PopBack() },
+		"Deque.WaitFront":                        func(w *world, c *call) { _, _ = do(w).dq.WaitFront(c.ctx) },
+		"Deque.WaitBack":                         func(w *world, c *call) { _, _ = do(w).dq.WaitBack(c.ctx) },
+		"Deque.ForcePushFront":                   func(w *world, c *call) { _ = do(w).dq.ForcePushFront(c.i) },
+		"Deque.ForcePushBack":                    func(w *world, c *call) { _ = do(w).dq.ForcePushBack(c.i) },
+		"Deque.WaitPushFront":                    func(w *world, c *call) { _ = do(w).dq.WaitPushFront(c.ctx, c.i) },
+		"Deque.WaitPushBack":                     func(w *world, c *call) { _ = do(w).dq.WaitPushBack(c.ctx, c.i) },
+		"Deque.Producer":                         func(w *world, c *call) { _ = do(w).dq.Producer() },
+		"Deque.ProducerBlocking":                 func(w *world, c *call) { _ = do(w).dq.ProducerBlocking() },
+		"Deque.ProducerReverse":                  func(w *world, c *call) { _ = do(w).dq.ProducerReverse() },
+		"Deque.ProducerReverseBlocking":          func(w *world, c *call) { _ = do(w).dq.ProducerReverseBlocking() },
+		"Deque.Iterator":                         func(w *world, c *call) { _ = do(w).dq.Iterator() },
+		"Deque.IteratorReverse":                  func(w *world, c *call) { _ = do(w).dq.IteratorReverse() },
+		"Deque.Iterator().ReadOne":               func(w *world, c *call) { _, _ = do(w).iter.ReadOne(c.ctx) },
+		"Deque.IteratorReverse().ReadOne":        func(w *world, c *call) { _, _ = do(w).riter.ReadOne(c.ctx) },
+		"Deque.Distributor().Send":               func(w *world, c *call) { _ = do(w).dist.Send(c.ctx, c.i) },
+		"Deque.Distributor().Receive":            func(w *world, c *call) { _, _ = do(w).dist.Receive(c.ctx) },
+		"Deque.Distributor().Len":                func(w *world, c *call) { _ = do(w).dist.Len() },
 		"Deque.DistributorNonBlocking().Send":    func(w *world, c *call) { _ = do(w).distnb.Send(c.ctx, c.i) },
 		"Deque.DistributorNonBlocking().Receive": func(w *world, c *call) { _, _ = do(w).distnb.Receive(c.ctx) },
 		"Deque.DistributorNonBlocking().Len":     func(w *world, c *call) { _ = do(w).distnb.Len() },
@@ -243,9 +243,10 @@ func init() {
 					}
 					bo(w).br.Unsubscribe(c.ctx, ch)
 				},
-				n("Stats"): func(w *world, c *call) { _ = bo(w).br.Stats(c.ctx) },
-				n("Stop"):  func(w *world, c *call) { bo(w).br.Stop() },
-				n("Wait"):  func(w *world, c *call) { bo(w).br.Wait(c.ctx) },
+				n("Populate()"): func(w *world, c *call) { _ = bo(w).br.Populate(fun.SliceIterator([]int{c.i, c.i + 1}))(c.ctx) },
+				n("Stats"):      func(w *world, c *call) { _ = bo(w).br.Stats(c.ctx) },
+				n("Stop"):       func(w *world, c *call) { bo(w).br.Stop() },
+				n("Wait"):       func(w *world, c *call) { bo(w).br.Wait(c.ctx) },
 			},
 		})
 	}
